@@ -30,11 +30,13 @@ CHECKS["C10"] = dict(
 
 CHECKS["C11"] = dict(
     engine="tlc+controlled-scheduler+compiled-programs",
-    technique="TLA+ semaphore/notify-list contracts (GoSync) as judge: outcome sets (GoSyncProg) + TLC trace validation (GoSyncTrace) of histories from the real sema_llgo.go under a controlled scheduler with atomics as scheduling points; llgo-compiled sync/atomic/go-statement stress programs; Go's Mutex, RWMutex, WaitGroup and Once algorithms (compiled unchanged by llgo) model-checked over the semaphore contract (PlusCal)",
+    technique="TLA+ semaphore/notify-list contracts (GoSync) as judge: outcome sets (GoSyncProg) + TLC trace validation (GoSyncTrace) of histories from the real sema_llgo.go under a controlled scheduler with atomics as scheduling points; sync/atomic as one memory with indivisible steps (AtomicSC) gives the outcome set of each litmus program, observed outcomes of the llgo-compiled runner (13 operand kinds, real threads) must lie inside it, AtomicTSO (layer B) checks llgo's instruction selection on x86-TSO; go statements judged by GoStmt (snapshot at the statement; TLC enumerates call form x argument kinds with the prescribed observation); llgo-compiled stress programs; Go's Mutex, RWMutex, WaitGroup and Once algorithms (compiled unchanged by llgo) model-checked over the semaphore contract (PlusCal)",
     text="The real sema_llgo.go (copied from the working tree, psync/latomic redirected to scheduler gates) is driven through all interleavings "
          "at lock/wait/signal/atomic granularity for ~120 scenarios and every outcome/history must satisfy the TLA+ contracts (units conserved, "
          "no lost wake-up, Wait returns only for a notified ticket). Go statements, Mutex/RWMutex/WaitGroup/Once/Cond and atomics of all widths "
-         "are exercised by llgo-compiled programs with real threads whose output is schedule independent.",
+         "are exercised by llgo-compiled programs with real threads whose output is schedule independent. "
+         "Litmus programs (35 named shapes + enumerated two-thread programs) x 13 operand kinds run thousands of rounds each: every observed outcome must be sequentially consistent; "
+         "735+ go-statement cases (12 call forms x 16 argument kinds x side-effect order) must show the callee, receiver and arguments as evaluated at the statement.",
     note="assumes Go's own sync package is correct given the semaphore/notify contracts; compiled stress programs see only OS-chosen schedules",
     design="5 C11")
 
@@ -90,7 +92,7 @@ CHECKS["C20"] = dict(
 
 CHECKS["C07"] = dict(
     engine="tlc+injected-test",
-    technique="TLA+ transcription of Go type identity over a recursive type grammar; TLC enumerates base terms and every single-point mutation (near-miss pairs) with the verdict; an injected test builds the pairs as go/types values and checks that ssa/abi's canonical descriptor name is shared exactly when identical",
+    technique="TLA+ transcription of Go type identity over a recursive type grammar; TLC enumerates base terms and every single-point mutation (near-miss pairs) with the verdict; an injected test builds the pairs as go/types values and checks that ssa/abi's canonical descriptor name is shared exactly when identical; MethodSets (declared type x {T,*T} x interface) and GenericLocal (types declared inside generic functions, local types as type arguments: 63 type values, all pairs) judged at run time in llgo-compiled programs",
     text="~4,600 pairs (4,200 near misses differing in one attribute: field name, tag, embedding, package of an unexported name, variadic, direction, array length, key/elem swap, type argument, scope, package) get the verdict of the TLA+ identity relation; Builder.TypeName - the weak-ODR symbol name under which the descriptor is merged - must coincide exactly then. go/types.Identical validates the transcription on every pair.",
     note="the run-time half (assertion = pointer comparison of merged descriptors) is covered by compiled programs only for a sample; interface satisfaction is exercised through GoMachine programs (C01) rather than enumerated here",
     design="5 C07")
